@@ -794,11 +794,11 @@ func (ex *Exec) copyOp(fr *frame, fn *ssa.Builtin, args []V, pos token.Pos) V {
 	// n = min(len(dst), len(src))
 	lt := ts.BvCmp(OSLt, dst.Len, src.Len)
 	nT := ts.Ite(lt, dst.Len, src.Len)
-	n, ok := termConstInt(nT)
+	n, ok := ex.constInt(nT)
 	if !ok {
 		n = ex.concretize(nT, 0, 1<<16, "copy length", pos, fr)
-		nT = ex.c64(n)
 	}
+	nT = ex.c64(n)
 	if n == 0 {
 		return nT
 	}
@@ -809,8 +809,17 @@ func (ex *Exec) copyOp(fr *frame, fn *ssa.Builtin, args []V, pos token.Pos) V {
 		if dst.B.cellW > cw {
 			cw = dst.B.cellW
 		}
-		so, ok1 := termConstInt(src.Off)
-		do, ok2 := termConstInt(dst.Off)
+		so, ok1 := ex.constInt(src.Off)
+		do, ok2 := ex.constInt(dst.Off)
+		if !isNumCellBuf(src.B) || !isNumCellBuf(dst.B) {
+			// object cells cannot be merged with ite: one path per feasible offset
+			if !ok1 {
+				so, ok1 = ex.concretize(src.Off, 0, int64(src.B.Size()), "copy source offset", pos, fr), true
+			}
+			if !ok2 {
+				do, ok2 = ex.concretize(dst.Off, 0, int64(dst.B.Size()), "copy destination offset", pos, fr), true
+			}
+		}
 		if ok1 && ok2 && int(so)%cw == 0 && int(do)%cw == 0 && int(n)%cw == 0 && dst.B.Size()%cw == 0 && src.B.Size()%cw == 0 {
 			if isNumCellBuf(src.B) && isNumCellBuf(dst.B) {
 				ex.recellUp(src.B, cw)
@@ -837,8 +846,8 @@ func (ex *Exec) copyOp(fr *frame, fn *ssa.Builtin, args []V, pos token.Pos) V {
 				}
 			}
 		}
-		if ok1 && ok2 && !isNumCellBuf(src.B) {
-			panic(abortPath{"unaligned byte copy of object cells"})
+		if !isNumCellBuf(src.B) || !isNumCellBuf(dst.B) {
+			panic(abortPath{fmt.Sprintf("byte copy of object cells not whole-cell: so=%v do=%v n=%d cw=%d srcW=%d dstW=%d srcSize=%d dstSize=%d", ok1, ok2, n, cw, src.B.cellW, dst.B.cellW, src.B.Size(), dst.B.Size())})
 		}
 	}
 	ex.copyElems(dst, src, int(n), et)
